@@ -612,6 +612,10 @@ def make_value_saves(ctx, rng, stories, exe, stats):
     for c, r in zip(cases, res):
         for sv in r.get("saves", []) or []:
             if len(sv) < 6000:
+                try:        # HashMap order varies from run to run: key order is canonicalised (same document)
+                    sv = json.dumps(json.loads(sv), sort_keys=True, ensure_ascii=False, separators=(",", ":"))
+                except ValueError:
+                    continue
                 per[c["si"]].setdefault(sv, None)
     out = []
     for si, (src, txt) in enumerate(stories):
@@ -672,6 +676,12 @@ def model_sample(ctx, rng, vcases, budget):
     alien LIST values in value slots, half for everything else), shortest documents first within a kind;
     grouped per story into inkdrive scripts [LOADTEXT m1, (NEW,) LOADTEXT m2, ...]"""
     groups = {True: collections.defaultdict(list), False: collections.defaultdict(list)}
+    if ctx.quick():                                  # every script re-reads its story: few stories, long scripts
+        srcs = sorted(set(c["src"] for c in vcases))
+        rng.shuffle(srcs)
+        gen = [x for x in srcs if x.startswith("generated")][:4]
+        keep = set(gen + [x for x in srcs if x not in gen][:8 - len(gen)])
+        vcases = [c for c in vcases if c["src"] in keep]
     for c in vcases:
         k = re.sub(r":(append|insert|replace|set|add):", ":", c["kind"])
         groups[_is_value_list_class(k)][k].append(c)
@@ -696,9 +706,9 @@ def model_sample(ctx, rng, vcases, budget):
     mcases = []
     for story, cs in bystory.items():
         rng.shuffle(cs)
-        for i in range(0, len(cs), 10):
+        for i in range(0, len(cs), 12):
             script, ops = [], []
-            for c in cs[i:i + 10]:
+            for c in cs[i:i + 12]:
                 if script and rng.random() < 0.5:
                     script.append(["NEW"])
                     ops.append(None)
@@ -762,7 +772,7 @@ def value_side(ctx, rng, std_exe, stream_exe, box):
         stories = value_stories(ctx, rng, ink_exe, stats)
         vsaves = make_value_saves(ctx, rng, stories, std_exe, stats)
         vcases = value_cases(ctx, rng, vsaves)
-        mcases = model_sample(ctx, rng, vcases, 90000 if ctx.quick() else 1500000)
+        mcases = model_sample(ctx, rng, vcases, 50000 if ctx.quick() else 1500000)
         box.update(stories=len(stories), cases=vcases, model_cases=len(mcases))
         viol = collections.OrderedDict()
         for exe, build in ((std_exe, "std"), (stream_exe, "stream")):
